@@ -33,9 +33,9 @@ NoLogs == [blog |-> <<>>, dlog |-> <<>>]
 NoPrev == [ok |-> FALSE, targets |-> {}]
 NoTw == [mode |-> 0, kind |-> "", k |-> 0, sums |-> <<>>, skip |-> FALSE]
 EmptyG == [srcs |-> <<>>, pools |-> <<>>, stmts |-> <<>>]
-Stats0 == [execs |-> 0, invokes |-> 0, starts |-> 0, nontrivial |-> 0, kf |-> 0, cyclic |-> 0, died |-> 0, interrupted |-> 0, failing |-> 0, dry |-> 0, twins |-> 0, cleans |-> 0]
+Stats0 == [execs |-> 0, invokes |-> 0, starts |-> 0, nontrivial |-> 0, kf |-> 0, cyclic |-> 0, died |-> 0, interrupted |-> 0, failing |-> 0, dry |-> 0, twins |-> 0, cleans |-> 0, tools |-> 0]
 
-Init == /\ l = 1 /\ meta = [sc |-> "", run |-> 0, eskip |-> {}, logs |-> NoLogs] /\ g = EmptyG
+Init == /\ l = 1 /\ meta = [sc |-> "", run |-> 0, eskip |-> {}, logs |-> NoLogs, ddbad |-> {}] /\ g = EmptyG
         /\ L = <<>> /\ F = {} /\ FT = {} /\ iv = NoIv /\ prev = NoPrev
         /\ relax = FALSE /\ taint = FALSE /\ afterCrash = FALSE /\ tw = NoTw /\ viol = {} /\ stats = Stats0
 
@@ -52,10 +52,12 @@ PoolDepth(p) == IF p = "console" THEN 1
 ---------------------------------------------------------------------------
 TReset ==
   /\ Is("Reset")
-  /\ meta' = [sc |-> E.sc, run |-> E.run, eskip |-> {}, logs |-> NoLogs]
+  \* ddbad: dyndep files whose forced text is invalid by spec/Dyndep.tla (C11); the engine monitors are off for such executions
+  /\ meta' = [sc |-> E.sc, run |-> E.run, eskip |-> {}, logs |-> NoLogs, ddbad |-> IF "ddbad" \in DOMAIN E THEN ToS(E.ddbad) ELSE {}]
   /\ g' = E.g
   /\ L' = [i \in 1..Len(E.g.stmts) |-> LastNone]
-  /\ F' = {} /\ FT' = {} /\ iv' = NoIv /\ prev' = NoPrev /\ relax' = FALSE /\ taint' = FALSE /\ afterCrash' = FALSE
+  /\ F' = {} /\ FT' = {} /\ iv' = NoIv /\ prev' = NoPrev /\ relax' = FALSE /\ afterCrash' = FALSE
+  /\ taint' = ("ddbad" \in DOMAIN E /\ E.ddbad # <<>>)
   /\ stats' = [stats EXCEPT !.execs = @ + 1]
   /\ tw' = IF E.tw = 1 THEN [mode |-> 1, kind |-> E.twk, k |-> 0, sums |-> <<>>, skip |-> FALSE]
             ELSE IF E.tw = 2 THEN [tw EXCEPT !.mode = 2, !.k = 0, !.skip = FALSE] ELSE NoTw
@@ -175,8 +177,8 @@ TStart ==
                \cup (IF i \in ToS(iv.started) THEN {V("C06", "command started twice in one invocation", "")} ELSE {})
                \cup (IF iv.tok >= 0 /\ Cardinality(runNow) > 1 + (iv.tok - E.fifo)
                      THEN {V("C06", "more commands running than jobserver tokens held", "")} ELSE {})
-         v17 == IF ~iv.acyc /\ FALSE THEN {} ELSE {}
-     IN /\ viol' = viol \cup v4 \cup v5 \cup v6 \cup v17
+         v11 == IF s.dd # "" /\ s.dd \in meta.ddbad THEN {V("C11", "a command was started although its dyndep file is malformed or inconsistent", "")} ELSE {}
+     IN /\ viol' = viol \cup v4 \cup v5 \cup v6 \cup v11
         /\ iv' = [iv EXCEPT !.started = Append(@, i), !.run = runNow, !.ticks = @ \cup {<<i, E.t>>},
                              !.kfSeen = IF \E x \in v4 \cup v5 \cup v6 : x.kf # "" THEN (CHOOSE x \in v4 \cup v5 \cup v6 : x.kf # "").kf ELSE @]
         /\ L' = L
@@ -290,7 +292,7 @@ TExit ==
                 THEN {V("C16", "response file of a failed command was removed", "")} ELSE {}
          v20 == (IF ok /\ ~iv.dry /\ (iv.cnt.fin # iv.cnt.tot \/ iv.cnt.st # iv.cnt.tot) /\ E.mc = "ok"
                  THEN {V("C20", "after a successful build finished/started differ from the total", "")} ELSE {})
-                \cup (IF ~iv.interrupted /\ iv.stStarted # iv.stFinished
+                \cup (IF ~iv.interrupted /\ (iv.stStarted \ iv.killed) # (iv.stFinished \ iv.killed)   \* commands killed when the build is abandoned on an error are not reported
                       THEN {V("C20", "a started command was never reported finished", "")} ELSE {})
          v07 == (IF iv.interrupted /\ (E.code # 130 \/ Exists(T, ".ninja_lock"))
                  THEN {V("C07", "interrupt: wrong exit status or lock file left behind", "")} ELSE {})
@@ -335,7 +337,10 @@ TExit ==
                 \cup (IF iv.acyc /\ ~relax /\ ~taint /\ ~iv.missingSrc /\ ok /\ (~(iv.exp \subseteq iv.stStarted) \/ (~restatInNeed /\ iv.stStarted # iv.exp))
                       THEN {V("C19", "the commands listed by the dry run are not those a real build runs",
                                IF iv.kfT # {} /\ iv.stStarted = iv.expNoF THEN "KF-FAIL-TOUCHED" ELSE IF kfSkipOf(iv.stStarted) THEN "KF-DEPS-SKIPPED" ELSE "")} ELSE {})
-         newv == v19 \cup v17 \cup vtw \cup v03 \cup v01 \cup v02 \cup v05f \cup v05a \cup v05b \cup v05c \cup v05d \cup v05e \cup v06 \cup v16 \cup v20 \cup v07
+         \* C11: a needed dyndep file that is malformed / truncated / inconsistent (spec/Dyndep.tla) makes the build fail
+         badNeeded == \E i \in iv.need : St(g, i).dd # "" /\ St(g, i).dd \in meta.ddbad
+         v11 == IF badNeeded /\ ~iv.dry /\ ok THEN {V("C11", "the build succeeded although a needed dyndep file is malformed, truncated or inconsistent", "")} ELSE {}
+         newv == v11 \cup v19 \cup v17 \cup vtw \cup v03 \cup v01 \cup v02 \cup v05f \cup v05a \cup v05b \cup v05c \cup v05d \cup v05e \cup v06 \cup v16 \cup v20 \cup v07
          kfHit == iv.kfSeen # "" \/ \E x \in newv : x.kf # ""
      IN /\ viol' = viol \cup newv
         /\ relax' = (relax \/ iv.interrupted)
@@ -395,6 +400,37 @@ TClean ==
   /\ stats' = [stats EXCEPT !.cleans = @ + 1]
   /\ UNCHANGED <<meta, L, F, FT, iv, relax, taint, afterCrash, tw>> /\ Step
 
+\* -- read-only tools of the real binary (C19) ------------------------------------------------
+\* `ninja -t commands` lists what a from-scratch build of the targets runs: every non-phony statement of the needed
+\* closure (validations included), each after the producers of its inputs, none twice.
+TTool ==
+  /\ Is("Tool")
+  /\ LET T == E.tree
+         tg == IF E.targets = <<>> THEN RootOuts(g) ELSE ToS(E.targets)
+         L0 == [i \in DOMAIN L |-> LastNone]
+         need == {i \in Needed(g, T, L0, tg) : ~St(g, i).phony}
+         needNV == {i \in NeededNV(g, T, L0, tg) : ~St(g, i).phony}
+         one == {Prod(g, t) : t \in tg} \ ({0} \cup {q \in Ids(g) : St(g, q).phony})
+         seq == E.cmds
+         dup == \E a, b \in DOMAIN seq : a < b /\ seq[a] = seq[b]
+         misordered == \E k \in DOMAIN seq : seq[k] \in Ids(g) /\ \E q \in Producers(g, T, L0, seq[k]) : ~\E a \in 1..(k - 1) : seq[a] = q
+         vs == (IF E.started THEN {V("C19", "a read-only tool executed a build command: -t " \o E.tool, "")} ELSE {})
+               \cup (IF E.pre # E.tree THEN {V("C19", "a read-only tool changed a file of the build directory: -t " \o E.tool, "")} ELSE {})
+               \cup (IF ~E.logsame THEN {V("C19", "a read-only tool changed the build log, the deps log or left a lock file: -t " \o E.tool, "")} ELSE {})
+               \cup (IF E.rc # 0 /\ E.tool # "missingdeps" THEN {V("C19", "a read-only tool failed on a loadable manifest: -t " \o E.tool, "")} ELSE {})
+               \cup (IF E.tool = "commands" /\ E.rc = 0 /\ ToS(seq) # need
+                     THEN {V("C19", "-t commands does not list the commands a from-scratch build of the targets runs",
+                             IF ToS(seq) = needNV THEN "KF-COMMANDS-NO-VALIDATIONS" ELSE "")} ELSE {})
+               \cup (IF E.tool = "commands" /\ E.rc = 0 /\ (dup \/ misordered)
+                     THEN {V("C19", "-t commands lists a command twice or before a command that produces one of its inputs", "")} ELSE {})
+               \cup (IF E.tool = "commands1" /\ E.rc = 0 /\ ToS(seq) # one
+                     THEN {V("C19", "-t commands -s does not list exactly the command of the target", "")} ELSE {})
+               \cup (IF E.json = "bad" THEN {V("C19", "compdb output is not valid JSON: -t " \o E.tool, "")} ELSE {})
+               \cup (IF E.json = "badutf8" THEN {V("C19", "compdb output is not valid JSON: -t " \o E.tool, "KF-COMPDB-NON-UTF8")} ELSE {})
+     IN viol' = viol \cup vs
+  /\ stats' = [stats EXCEPT !.tools = @ + 1]
+  /\ UNCHANGED <<meta, g, L, F, FT, iv, prev, relax, taint, afterCrash, tw>> /\ Step
+
 \* the process died (crash point) or ended abnormally
 TDied ==
   /\ Is("Died")
@@ -417,7 +453,7 @@ TFlush ==
   /\ UNCHANGED <<meta, g, L, F, FT, iv, prev, relax, taint, afterCrash, tw, viol, stats>>
 
 Next == TReset \/ TEnv \/ TInvoke \/ TLoaded \/ THook \/ TStatus \/ TStart \/ TEditRun \/ TDone \/ TInterrupt
-        \/ TAbort \/ TSkip \/ TClean \/ TExit \/ TDied \/ TAbnormal \/ TFlush
+        \/ TAbort \/ TSkip \/ TClean \/ TTool \/ TExit \/ TDied \/ TAbnormal \/ TFlush
 
 Spec == Init /\ [][Next]_vars
 
